@@ -572,11 +572,64 @@ const EQUIV: [&str; 12] = ["1", "1.0", "true", "0", "0.0", "false", "2", "2.0", 
 /// operands of comparisons: often drawn from a small pool so that equal operands, equal-across-kind
 /// operands and container membership actually occur
 fn gen_cmp_operand(rng: &mut Rng, d: u32) -> G {
-    match rng.below(6) {
+    match rng.below(8) {
         0 | 1 => G::Lit(rng.pick(&EQUIV).to_string()),
         2 => G::List((0..1 + rng.below(3)).map(|_| G::Lit(rng.pick(&EQUIV).to_string())).collect()),
+        3 => {
+            // sequences with equal elements (same spelling or equal across kinds) for `in` / `==`
+            let fam = *rng.pick(&KEY_FAMILIES);
+            let items: Vec<G> = (0..2 + rng.below(3)).map(|_| G::Lit(rng.pick(fam).to_string())).collect();
+            if rng.chance(1, 2) { G::List(items) } else { G::Tuple(items) }
+        }
+        4 => gen_dup_map(rng, d),
         _ => gen(rng, d),
     }
+}
+
+/// spellings of keys that are equal as `Value`s (a family collides in a map)
+const KEY_FAMILIES: [&[&str]; 6] = [
+    &["1", "1.0", "true", "1"],
+    &["0", "0.0", "false", "0"],
+    &["\"a\"", "\"a\"", "'a'"],
+    &["2", "2.0", "2"],
+    &["none", "none"],
+    &["\"1\"", "'1'"],
+];
+/// pairwise different values, so that which pair wins is visible
+const DISTINCT: [&str; 8] = ["10", "20", "30", "\"x\"", "\"y\"", "\"z\"", "none", "[1]"];
+const OTHER_KEYS: [&str; 5] = ["\"b\"", "5", "\"zz\"", "3.5", "(1, 2)"];
+
+/// A map literal (2-4 pairs) in which a key occurs at least twice - same spelling or equal across
+/// kinds, adjacent or separated by other keys - with different values; now and then one value or
+/// key is not a plain literal, so that also the all-literal spelling is built at run time.
+fn gen_dup_map(rng: &mut Rng, d: u32) -> G {
+    let fam = *rng.pick(&KEY_FAMILIES);
+    let n = 2 + rng.below(3) as usize;
+    let dups = 2 + rng.below((n - 1) as u64) as usize; // 2..=n occurrences of the colliding key
+    let mut is_dup = vec![false; n];
+    let mut placed = 0;
+    while placed < dups.min(n) {
+        let i = rng.below(n as u64) as usize;
+        if !is_dup[i] {
+            is_dup[i] = true;
+            placed += 1;
+        }
+    }
+    let mut vals: Vec<&str> = DISTINCT.to_vec();
+    let mut pairs = vec![];
+    for dup in is_dup {
+        let key = if dup { G::Lit(rng.pick(fam).to_string()) } else { G::Lit(rng.pick(&OTHER_KEYS).to_string()) };
+        let key = if rng.chance(1, 12) { G::Neg(Box::new(G::Neg(Box::new(key)))) } else { key };
+        let vi = rng.below(vals.len() as u64) as usize;
+        let v = G::Lit(vals.remove(vi).to_string());
+        let v = match rng.below(10) {
+            0 => G::List(vec![v]),
+            1 if d > 0 => gen(rng, d.min(1)),
+            _ => v,
+        };
+        pairs.push((key, v));
+    }
+    G::Map(pairs)
 }
 
 fn gen(rng: &mut Rng, depth: u32) -> G {
@@ -611,7 +664,7 @@ fn gen(rng: &mut Rng, depth: u32) -> G {
         73..=81 => G::Neg(Box::new(if rng.chance(2, 3) { G::Lit(rng.pick(&INTS).to_string()) } else { gen(rng, d) })),
         82..=86 => G::List((0..rng.below(4)).map(|_| gen(rng, d.min(2))).collect()),
         87..=89 => G::Tuple((0..rng.below(4)).map(|_| gen(rng, d.min(2))).collect()),
-        90..=93 => G::Map(
+        90..=91 => G::Map(
             (0..rng.below(4))
                 .map(|_| {
                     // colliding keys (equal across kinds, repeated) exercise insertion order
@@ -620,11 +673,18 @@ fn gen(rng: &mut Rng, depth: u32) -> G {
                 })
                 .collect(),
         ),
+        92..=93 => gen_dup_map(rng, d),
         94..=97 => {
             let pos = (0..rng.below(3)).map(|_| gen(rng, d.min(2))).collect();
-            let kws = (0..1 + rng.below(3))
+            let mut kws: Vec<(&'static str, G)> = (0..1 + rng.below(3))
                 .map(|_| (*rng.pick(&KWNAMES), if rng.chance(3, 4) { gen_lit(rng) } else { gen(rng, d.min(2)) }))
                 .collect();
+            if rng.chance(1, 3) {
+                // the same keyword twice (the parser accepts it): the later value must win on both paths
+                let name = kws[rng.below(kws.len() as u64) as usize].0;
+                let at = rng.below(kws.len() as u64 + 1) as usize;
+                kws.insert(at, (name, G::Lit(rng.pick(&DISTINCT).to_string())));
+            }
             G::Call(pos, kws)
         }
         _ => {
@@ -766,6 +826,15 @@ const SEEDS: &[&str] = &[
     "`1` > `2` < `1` // `0`", "`1` < `2` < u", "`2` < `1` < u", "u < `1` < `2`",
     "`1` != `1` != `1`", "`1` <= `1` >= `1`", "(`1` < `2`) < `3`", "`1` < (`2` < `3`)",
     "[`1`, `2`]", "[`1`, [`2`]]", "(`1`,)", "(`1`, `2`)", "()", "[]", "{}", "{`1`: `2`}",
+    "{`\"a\"`: `1`, `\"b\"`: `5`, `\"a\"`: `2`}", "{`\"a\"`: `1`, `\"a\"`: `2`, `\"a\"`: `3`}",
+    "{`1`: `\"x\"`, `2`: `\"y\"`, `1.0`: `\"z\"`}", "{`true`: `1`, `1`: `2`}", "{`1`: `1`, `true`: `2`, `1.0`: `3`, `2`: `4`}",
+    "{`0`: `\"x\"`, `false`: `\"y\"`}", "{`\"a\"`: -`1`, `\"b\"`: `5`, `\"a\"`: `2`}", "{`\"a\"`: `1`, `\"b\"`: `5`, `\"a\"`: [`2`]}",
+    "{`\"a\"`: `1`, `\"a\"`: `1`}", "{`\"b\"`: `1`, `\"a\"`: `2`, `\"b\"`: `3`, `\"a\"`: `4`}", "{`none`: `1`, `none`: `2`}",
+    "{`{\"a\": 1, \"a\": 2}`: `1`}", "`{\"a\": 1, \"b\": 5, \"a\": 2}`", "`{1: \"x\", 1.0: \"y\", true: \"z\"}`",
+    "kw(ka=`1`, kb=`2`, ka=`3`)", "kw(ka=`1`, ka=`2`, ka=`3`)", "kw(ka=`1`, kb=`2`, ka=-`3`)", "`0`|kwf(ka=`1`, ka=`2`)",
+    "`1.0` in [`1`, `1`]", "`true` in (`1`, `1`)", "`1` in [`1.0`, `true`]", "`1` in (`true`,)", "`\"a\"` in [`\"a\"`, `'a'`]",
+    "`2` not in [`2.0`, `2`]", "[`1`, `1.0`] == [`1.0`, `1`]", "(`1`, `1`) == (`true`, `1.0`)", "`1` in `[1, 1]`", "`1.0` in `(1, 1)`",
+    "`0` in [`false`, `0.0`] in [`true`]", "`1` in {`1`: `2`, `1.0`: `3`}", "`true` in {`1.0`: `2`}",
     "{`1`: `2`, `1`: `3`}", "{`1`: `2`, `1.0`: `3`}", "{`1`: `2`, `true`: `3`}", "{`\"a\"`: `1`, `\"a\"`: `2`}",
     "{`[1]`: `2`}", "{[`1`]: `2`}", "{`{}`: `2`}", "{`none`: `1`}", "{`2`: `1`, `1`: `2`}",
     "{`\"b\"`: `1`, `\"a\"`: `2`}", "{`1.5`: `1`}", "{`(1, 2)`: `3`}", "[`1`, `\"a\"`, `none`, `true`, `1.5`]",
